@@ -11,10 +11,13 @@ import (
 	"flag"
 	"fmt"
 	"os"
+	"sort"
+	"strings"
 
 	"github.com/lni/dragonboat/v4/logger"
 	sm "github.com/lni/dragonboat/v4/statemachine"
 	drummer "github.com/lni/drummer/v3"
+	pb "github.com/lni/drummer/v3/drummerpb"
 	"verif/harness/internal/dbx"
 	"verif/harness/internal/hx"
 )
@@ -90,6 +93,12 @@ func runSeq(run *hx.Run, seq int, ops []dbx.Op, gen func() (dbx.Op, bool), repli
 					dc, da := dbx.TakeDump(c), dbx.TakeDump(db)
 					if dc.Canon() != da.Canon() {
 						c03fail(run, seq, i, done, "lagging-replica-state-differs", "a lagging replica that installed a snapshot differs from the replica that took it")
+						if mailboxes(dc) != mailboxes(da) {
+							cp := make([]dbx.Op, len(done))
+							copy(cp, done)
+							run.Violate(hx.Violation{Property: "C10", Clause: "mailbox_on_every_replica", Signature: "restored-replica-mailboxes-differ",
+								What: "a lagging replica that installed a snapshot keeps scheduled or picked-up batches the snapshot's source no longer has (or lacks some): they would be delivered again, or never", Seq: seq, OpIndex: i, Ops: cp})
+						}
 						if dc.LaunchDeadline != da.LaunchDeadline || dc.Failed != da.Failed {
 							cp := make([]dbx.Op, len(done))
 							copy(cp, done)
@@ -303,6 +312,27 @@ func firstDiff(a, b string) string {
 		lo = 0
 	}
 	return fmt.Sprintf("at byte %d: %q vs %q", i, a[lo:min(len(a), i+60)], b[lo:min(len(b), i+60)])
+}
+
+// mailboxes renders the two request tables of a dump canonically
+func mailboxes(d *dbx.Dump) string {
+	var b strings.Builder
+	for _, t := range []map[string][]*pb.NodeHostRequest{d.Requests, d.Outgoing} {
+		ks := []string{}
+		for k := range t {
+			ks = append(ks, k)
+		}
+		sort.Strings(ks)
+		for _, k := range ks {
+			b.WriteString(k + "=")
+			for _, r := range t[k] {
+				b.WriteString(dbx.ReqStr(r))
+			}
+			b.WriteString(";")
+		}
+		b.WriteString("|")
+	}
+	return b.String()
 }
 
 func min(a, b int) int {
